@@ -345,4 +345,17 @@ def checkerLoad (db : CodecDB) (view : Bytes) : Load :=
     | .error (.syntax e) => ⟨[.invalidMoFile e, .brokenEncoding], none, true, none⟩
     | .error e => ⟨[.brokenEncoding], none, true, some e⟩
 
+/-- `check_messages` (lib/check/__init__.py:877–882): is `empty-file` emitted for a file in which `counted`
+    messages (non-obsolete, not the header entry) were seen? -/
+def emptyFileTag (isBinary : Bool) (f : MoFile) (counted : Nat) : Bool :=
+  if counted = 0 then
+    let possibleHiddenStrings := if isBinary then f.possibleHiddenStrings else false
+    !possibleHiddenStrings
+  else false
+
+/-- the smallest codec database: only `'ASCII'` (used for concrete witnesses) -/
+def asciiDB : CodecDB where
+  asciiCompatible name := name == asciiName
+  decode _ bs := if bs.all (· < 128) then some (bs.map fun b => Char.ofNat b.toNat) else none
+
 end I18n.Mo
